@@ -141,19 +141,20 @@ def stepwise_configs(tier):
     base = dict(NAcc="1", Scale="1", DOff="1", ClipN="1", ClipD="5", VfN="1", VfD="2", EntN="1", EntD="100")
     L = [
         # every combination of (reward, ratio, value, entropy) on two successive steps of one row
-        dict(NSteps="2", NRows="1", MB="2", RVals="{0,2}", DVals="{0,1,2}", XVals="{0,3}", EVals="{1,2}"),
+        dict(NSteps="2", NRows="1", MB="2", RVals="{0,2}", DVals="{0,1,2}", XVals="{0,3}", EVals="{1}" if q else "{1,2}"),
         # two rows x two steps in one mini-batch (which reward / old log-probability belongs to which transition), reward_scale = 2
         dict(NSteps="2", NRows="2", MB="4", Scale="2", RVals="{0,3}", DVals="{0,2}", XVals="{1}", EVals="{1}"),
         # mini-batch smaller than the buffer: 3 of 4 (the incomplete second mini-batch is dropped), 2 of 4 (two mini-batches)
-        dict(NSteps="2", NRows="2", MB="3", RVals="{0,2}", DVals="{2}" if q else "{0,2}", XVals="{0,3}", EVals="{1}"),
-        dict(NSteps="2", NRows="2", MB="2", RVals="{0,2}", DVals="{0}", XVals="{0,3}", EVals="{1}" if q else "{1,2}"),
+        dict(NSteps="2", NRows="2", MB="3", RVals="{0,2}" if q else "{0,1,2}", DVals="{2}", XVals="{0,3}", EVals="{1}"),
+        dict(NSteps="2", NRows="2", MB="2", RVals="{0,2}", DVals="{0}", XVals="{0,3}", EVals="{1}"),
         # update_timestep = 2: the buffer accumulates the transitions of two batches before the update
-        dict(NAcc="2", NSteps="2", NRows="1", MB="4", RVals="{0,2}", DVals="{0,2}", XVals="{1}", EVals="{1}"),
+        dict(NAcc="2", NSteps="2", NRows="1", MB="4", RVals="{0,2}", DVals="{2}", XVals="{1}", EVals="{1,2}"),
     ]
     if not q:
-        L += [dict(NSteps="3", NRows="1", MB="3", RVals="{0,1,3}", DVals="{0,1,2}", XVals="{0,2}", EVals="{1}"),
-              dict(NSteps="2", NRows="2", MB="4", Scale="3", RVals="{0,3}", DVals="{0,1,2}", XVals="{0,2}", EVals="{1}"),
-              dict(NAcc="2", NSteps="1", NRows="2", MB="2", RVals="{0,2}", DVals="{0,2}", XVals="{0,3}", EVals="{1}")]
+        L += [dict(NSteps="3", NRows="1", MB="3", RVals="{0,3}", DVals="{0,1,2}", XVals="{0,2}", EVals="{1}"),
+              dict(NSteps="2", NRows="2", MB="4", Scale="3", RVals="{0,3}", DVals="{0,1,2}", XVals="{1}", EVals="{1}"),
+              dict(NSteps="2", NRows="2", MB="4", RVals="{1}", DVals="{0,2}", XVals="{0,2}", EVals="{1,3}"),
+              dict(NAcc="2", NSteps="1", NRows="2", MB="2", RVals="{0,2}", DVals="{0,2}", XVals="{1}", EVals="{1}")]
     return [dict(base, **c) for c in L]
 
 
@@ -339,42 +340,48 @@ def rec_of(order):
     return rec
 
 
-def env_case(nmoves):
+def env_case(nsteps, nmv=5):
     """integer points with integer pairwise distances (coordinates used as they are: rewards are integers)"""
     pts, _ = embed.template(5, 0)
     row2_moves = [[1, 2], [3, 4], [0, 4], [2, 3], [1, 4], [0, 2]]
     return {"pts": pts, "D": embed.dist_matrix(pts), "grid": 1,
             "tours": [rec_of([0, 3, 1, 2, 4]), rec_of([0, 1, 2, 3, 4])],
             "clmoves": [[1, 3], [2, 0]],
-            "moves": [[0, 2], [1, 3], [4, 1], [3, 0], [2, 4]],
-            "row2": {"rec0": rec_of([0, 2, 4, 1, 3]), "cl": [0, 3], "moves": row2_moves[:nmoves]}}
+            "moves": [[0, 2], [1, 3], [4, 1], [3, 0], [2, 4]][:nmv],
+            "row2": {"rec0": rec_of([0, 2, 4, 1, 3]), "cl": [0, 3], "moves": row2_moves[:nsteps]}}
 
 
 DUMMY_CASE = {"D": [[0]], "grid": 1, "tours": [], "clmoves": [], "moves": [], "row2": {"rec0": [], "cl": [0, 0], "moves": []}}
 
 
 def nstep_configs(tier):
+    """EnvMoves (mode env): how many of the 2-opt moves of env_case row 1 may choose from at every step"""
     q = tier == "quick"
     base = dict(Mode='"abs"', NChunks="1", NEpochs="2", GamN="1", GamD="2", ClipN="1", ClipD="5", VfN="1", VfD="2",
-                RVals="{0,2}", ROff="1", XVals="{0,2}", BVals="{0,2}", DVals="{0,2}", DOff="1")
+                RVals="{0,2}", ROff="1", XVals="{0,2}", BVals="{0,2}", DVals="{0,2}", DOff="1", EnvMoves="5")
     L = [
-        # one row, two steps, two epochs: all rewards (-1 / +1), values, bootstrap values, ratios 1/2 and 2; gamma = 1/2
-        dict(NStep="2", NRows="1", DVals="{0,2}" if q else "{0,1,2}", XVals="{0,2}" if q else "{0,1,3}"),
+        # one row, two steps, two epochs: all rewards (-1 / +1), values, bootstrap values, ratios 1/2 (1) 2; gamma = 1/2
+        dict(NStep="2", NRows="1", XVals="{0,2}" if q else "{0,1,3}", DVals="{2}" if q else "{0,2}"),
         # two rows (step-major flattening of [n, B]); gamma = 1/2
-        dict(NStep="2", NRows="2", RVals="{0,3}", XVals="{1}", BVals="{2}" if q else "{0,2}", DVals="{0,2}"),
+        dict(NStep="2", NRows="2", RVals="{0,3}", XVals="{1}", BVals="{2}", DVals="{0,2}" if q else "{0,1,2}"),
         # three epochs: value clipping stays anchored at the FIRST epoch's prediction
         dict(NStep="2", NRows="1", NEpochs="3", RVals="{0,2}" if q else "{0,2,4}", XVals="{0,2}", BVals="{1}", DVals="{2}"),
         # two chunks of n steps (T_train = 2 n), three steps, gamma = 1 and 1/2
         dict(NStep="2", NRows="1", NChunks="2", GamD="1", RVals="{0,2}", XVals="{1}", BVals="{0,2}", DVals="{0,2}"),
         dict(NStep="3", NRows="1", RVals="{0,2}", XVals="{0,3}" if not q else "{1}", BVals="{0,4}", DVals="{0,2}" if q else "{2}"),
         # the REAL TSPkoptEnv: rewards from tours and 2-opt moves, curriculum step and CL_best jump; gamma = 1/2 and 1
-        dict(Mode='"env"', NStep="2", NRows="2", XVals="{2}", BVals="{4}", DVals="{0}" if q else "{0,2}"),
+        dict(Mode='"env"', NStep="2", NRows="2", XVals="{2}", BVals="{4}", DVals="{0}"),
         dict(Mode='"env"', NStep="2", NRows="2", GamD="1", XVals="{1}", BVals="{0}", DVals="{2}"),
+        # dyadic clip range 1/4: cases where the clipped and the unclipped value error are equal with the value outside
+        # the clip range (the maximum is not differentiable there: any sub-gradient is accepted)
+        dict(NStep="3", NRows="1", ClipD="4", RVals="{1,2}", XVals="{0,2}", BVals="{1}", DVals="{1}" if q else "{0,1,2}"),
     ]
     if not q:
-        L += [dict(Mode='"env"', NStep="2", NRows="2", NChunks="2", XVals="{3}", BVals="{1}", DVals="{2}"),
+        L += [dict(Mode='"env"', NStep="2", NRows="2", NChunks="2", XVals="{3}", BVals="{1}", DVals="{2}", EnvMoves="3"),
+              dict(Mode='"env"', NStep="2", NRows="2", XVals="{2}", BVals="{3}", DVals="{0,2}", EnvMoves="3"),
+              dict(Mode='"env"', NStep="3", NRows="2", XVals="{2}", BVals="{3}", DVals="{2}", EnvMoves="4"),
               dict(NStep="2", NRows="2", NEpochs="2", RVals="{1,3}", XVals="{0,2}", BVals="{1}", DVals="{2}"),
-              dict(NStep="2", NRows="1", NEpochs="3", GamN="1", GamD="4", RVals="{1}", XVals="{0,1,2}", BVals="{0,2}", DVals="{0}")]
+              dict(NStep="2", NRows="1", NEpochs="3", GamN="1", GamD="4", RVals="{1}", XVals="{0,2}", BVals="{0,2}", DVals="{0}")]
     return [dict(base, **c) for c in L]
 
 
@@ -538,10 +545,10 @@ def _tlc_job(job):
         tup = r.tuples("W")
     else:
         wd, root = tlc.prepare("c16b_nstep_%d" % i, module="NStepPPO")
-        case = env_case(int(C["NChunks"]) * int(C["NStep"])) if C["Mode"] == '"env"' else DUMMY_CASE
+        case = env_case(int(C["NChunks"]) * int(C["NStep"]), int(C["EnvMoves"])) if C["Mode"] == '"env"' else DUMMY_CASE
         f = os.path.join(wd, "case.json")
         tlc.dump_json(f, {k: v for k, v in case.items() if k != "pts"})
-        tlc.write_cfg(wd, root, constants=C, invariants=NSTEP_INV)
+        tlc.write_cfg(wd, root, constants={k: v for k, v in C.items() if k != "EnvMoves"}, invariants=NSTEP_INV)
         r = tlc.run(wd, root, workers=4, heap="2g", timeout=3000, env={"CASE_FILE": f})
         tup = r.tuples("N")
     return kind, C, case, r.distinct, r.generated, list(r.violated), tup, time.time() - t0
@@ -554,12 +561,14 @@ def violations(tier, seed):
     torch.set_num_threads(1)
     jobs = [("stepwise", i, C) for i, C in enumerate(stepwise_configs(tier))] + \
            [("nstep", i, C) for i, C in enumerate(nstep_configs(tier))]
-    with cf.ThreadPoolExecutor(max_workers=4) as ex:
-        results = list(ex.map(_tlc_job, jobs))
-    t1 = time.time()
     viol, samples, drift, per_cfg = [], [], [], []
     states = trans = replayed = cases = 0
-    for (kind, C, case, distinct, generated, violated, tup, wall) in results:
+    t_replay = 0.0
+    ex = cf.ThreadPoolExecutor(max_workers=5)
+    futures = [ex.submit(_tlc_job, j) for j in jobs]       # the replays below overlap with the TLC runs still going on
+    ex.shutdown(wait=False)
+    for fut in futures:
+        (kind, C, case, distinct, generated, violated, tup, wall) = fut.result()
         states += distinct
         trans += generated
         cases += len(tup)
@@ -571,6 +580,7 @@ def violations(tier, seed):
         else:
             k = replay_nstep(tup, C, case, viol, samples)
         replayed += k
+        t_replay += time.time() - tr
         per_cfg.append({"module": "StepwisePPO" if kind == "stepwise" else "NStepPPO", "constants": C, "cases": len(tup),
                         "real_shared_step_runs": k, "tlc_s": round(wall, 1), "replay_s": round(time.time() - tr, 1)})
     try:
@@ -583,7 +593,8 @@ def violations(tier, seed):
         print("MODEL-DRIFT C16: specification invariants violated: %s" % d)
     cov = {"states": states, "transitions": trans, "replayed": replayed, "tlc_cases": cases, "configs": per_cfg,
            "samples": samples[:2] + samples[-2:], "model_drift": drift,
-           "wall_split_s": {"tlc": round(t1 - t0, 1), "replay": round(time.time() - t1, 1)}}
+           "wall_split_s": {"total": round(time.time() - t0, 1), "replay": round(t_replay, 1),
+                            "tlc_sum_over_jobs": round(sum(c["tlc_s"] for c in per_cfg), 1)}}
     return viol, cov
 
 
